@@ -306,7 +306,7 @@ fn recv_step(st: &mut St, i: usize) {
     let o = st.next_o;
     let stream = roll < 15;
     hist::push(json!({"k":"fcall","o":o,"h":id,"stream":stream}));
-    let wf = Arc::new(WakeFlag { o, flag: AtomicBool::new(false) });
+    let wf = WakeFlag::new(o);
     let fut = if stream {
       None
     } else {
